@@ -2,6 +2,7 @@
 from __future__ import annotations
 
 import json
+import random
 from fractions import Fraction as F
 
 from .. import core, oracle, rulegen, rules, ruleprops
@@ -60,6 +61,32 @@ def gen(ctx):
     cfg = {"kind": rng.choice(["welfare", "popularity"]), "rules": seq, "sat": cmp_sat, "multi": rng.random() < 0.5,
            "tie": rng.choice(["lexico", "min_cost", "max_cost"])}
     cfg.update(gen_init_cfg(rng, case))
+    return case, cfg
+
+
+def gen_tinydiff(ctx):
+    """outcomes whose total satisfaction differs by 1e-7 .. 1e-9 without being equal ("the best" is an exact comparison): approval
+    elections with costs in the tens of millions that differ by a unit or two, compared by the cost share of the budget; cardinal
+    elections whose scores differ in the eighth decimal"""
+    rng = ctx.rng
+    r = random.Random(rng.getrandbits(48))
+    if r.random() < 0.6:
+        base = core.gen_tight_election(r, btypes=("app",), m=(2, 5), n=(2, 6))
+        S = r.choice([10**7, 10**7, 10**8, 3 * 10**6])
+        projects = [(nm, c * S + r.choice([0, 0, 1, 2, -1])) for nm, c in base.projects]
+        case = Case(projects, base.budget * S + r.choice([0, 1, 5]), "app", base.ballots, base.seed)
+        specs = ["greedy:Cost_Sat", "greedy:Cardinality_Sat", "mes:Cost_Sat", "mes:Cardinality_Sat", "phragmen", "greedy:Relative_Cost_Approx_Normaliser_Sat"]
+        cmp_sat = r.choice(["Relative_Cost_Approx_Normaliser_Sat", "Relative_Cost_Approx_Normaliser_Sat", "Cost_Sat"])
+    else:
+        base = core.gen_tight_election(r, btypes=("card",), m=(2, 5), n=(2, 5))
+        D = r.choice([10**7, 10**8, 10**9])
+        ballots = [{k: v + F(r.choice([0, 0, 1, 2, 3]), D) for k, v in b.items()} for b in base.ballots]
+        case = Case(base.projects, base.budget, "card", ballots, base.seed)
+        specs = ["greedy:CC_Sat", "greedy:Additive_Cardinal_Sat", "mes:Additive_Cardinal_Sat", "maxw:Additive_Cardinal_Sat"]
+        cmp_sat = "Additive_Cardinal_Sat"
+    seq = [r.choice(specs) for _ in range(r.choice([2, 3, 3]))]
+    cfg = {"kind": r.choice(["welfare", "welfare", "popularity"]), "rules": seq, "sat": cmp_sat, "multi": r.random() < 0.4, "tie": r.choice(["lexico", "min_cost", "max_cost"])}
+    cfg.update(gen_init_cfg(r, case))
     return case, cfg
 
 
@@ -215,6 +242,11 @@ def run(ctx, n=None, compare=True):
             break
         case, cfg = gen_init_setfn(ctx)
         one(case, cfg, "init_setfn")
+    for _ in range(ctx.scale(600, 5000)):  # round 6 (drawn after the streams above)
+        if ctx.budget_s is not None and ctx.elapsed() > ctx.budget_s:
+            break
+        case, cfg = gen_tinydiff(ctx)
+        one(case, cfg, "near-tied totals")
     history_stream(ctx, ctx.scale(400, 3000))
     reuse_stream(ctx, ctx.scale(1200, 8000), lines if compare else None, info)
     if compare and lines:
